@@ -33,7 +33,6 @@ EXPECTED_NOT_UNDERSTOOD = {
     "seeded/C05-O/patch.diff": "type labels looked up through a table keyed by the running value: the label column is built another way; the old catch came from the label-loop rule reading decisions that are absent from that construction",
     "seeded/C07-U/patch.diff": "merge_kernel_intervals rewritten with np.flatnonzero / np.maximum.reduceat (running maximum lost): a numpy algorithm the evaluator does not interpret",
     "seeded/C07-V/patch.diff": "the +-marker counter replaced by forward-filled boolean state columns plus >= in the merge: another sweep algorithm than the two-marker template",
-    "seeded/C09-E/patch.diff": "critical events derived from the attribution map of the critical edges: the abstract run does not reduce the set comprehension over the edge set to concrete events",
     "seeded/C09-V/patch.diff": "nx.dag_longest_path replaced by a hand-rolled relaxation over a (ts, is_start, id) order: whether a hand-made order is topological for every graph is not decidable from the shape (same family as C09-T)",
     "seeded/C12-U/patch.diff": "step lookup vectorised with np.searchsorted over unsorted step starts: searchsorted is not interpreted (same family as C12-C)",
     "seeded/C16-L/patch.diff": "the per-pattern duration lists replaced by another accumulator: the rule looks for the two list stores and finds neither (look-for rule: not understood)",
